@@ -282,3 +282,231 @@ Example C15_example_experiment :
   | _ => GoErr 0
   end = GoErr 202.
 Proof. split; vm_compute; reflexivity. Qed.
+
+(* ============================================================================================ *)
+(* Fast-solver model file (neat/network/fast_network_model_io.go): WriteModel / ReadFMNSModel    *)
+(* ============================================================================================ *)
+(* Model: model/Fmns.v over model/Fast.v; proofs: proofs/FmnsSpec.v; correspondence: cases/FmnsCases.v.
+   [fsolver] is the Go solver object as far as it is described statically (id, name, counts, activation types,
+   bias list, connections with weight and signal, modules), [doc] the JSON document as a typed value (activation
+   types as NAMES), [fnet_of s] the solver of Fast.v inside it, [solver_of id name 0 fn] the object
+   Network.FastNetworkSolver returns for the Fast.v solver fn.  The registry is the one extracted from
+   neat/math/activations.go (gen/ActRegistry.v, C18).  Polymorphic in the number type F: [finite] says which
+   numbers JSON can carry (all of them over the reals; not NaN, +Inf, -Inf in binary64).
+   Trusted, outside the model: encoding/json prints and parses numbers and strings so that they round-trip
+   (the harness checks it bit for bit on every file).  Not modelled: the effect of modules on the solver steps
+   (Fast.v has none), so the output theorems speak about solvers without modules; the static round trip
+   covers modules. *)
+From NeatModel Require Import Net Fast ActRegistry Act ActRegistrySpec Fmns FmnsSpec C12Cases FmnsCases.
+
+Definition C15_name_of (c : Z) : res string := activation_name_from_type node_activators c.
+Definition C15_type_of (n : string) : res Z := activation_type_from_name node_activators n.
+
+(* every solver object the constructor can have returned (total >= 0, bias <= total, connection indices in range),
+   with registered activation types (neurons and modules) and finite numbers: WriteModel succeeds and
+   ReadFMNSModel on that document returns the same object, field for field (modules included) *)
+Theorem C15_fmns_roundtrip_solver :
+  forall (F : Type) (finite : F -> bool) (s : fsolver F),
+    Forall (fun c => exists n, C15_name_of c = Ok n) (s_acts s) ->
+    Forall (fun m => exists n, C15_name_of (sm_act m) = Ok n) (s_modules s) ->
+    forallb finite (s_biases s) = true ->
+    forallb finite (flat_map link_floats (s_conns s)) = true ->
+    solver_built s = true ->
+    exists d, fmns_write finite C15_name_of s = Ok d /\ fmns_read C15_type_of d = Ok s.
+Proof.
+  intros F finite s Ha Hm Hb Hc Hs.
+  exact (fmns_roundtrip_solver F finite C15_name_of C15_type_of type_of_name_of s (conj Ha (conj Hm (conj Hb Hc))) Hs).
+Qed.
+Print Assumptions C15_fmns_roundtrip_solver.
+
+(* WriteModel succeeds exactly on those: an unregistered type or a non-finite number is refused (GoErr), never
+   written as something else *)
+Theorem C15_fmns_write_ok_iff :
+  forall (F : Type) (finite : F -> bool) (s : fsolver F),
+    (exists d, fmns_write finite C15_name_of s = Ok d) <->
+    (Forall (fun c => exists n, C15_name_of c = Ok n) (s_acts s) /\
+     Forall (fun m => exists n, C15_name_of (sm_act m) = Ok n) (s_modules s) /\
+     forallb finite (s_biases s) = true /\
+     forallb finite (flat_map link_floats (s_conns s)) = true).
+Proof.
+  intros F finite s. split.
+  - intros [d H]. exact (fmns_write_ok_inv F finite C15_name_of s d H).
+  - intros H. exact (fmns_write_ok F finite C15_name_of s H).
+Qed.
+Print Assumptions C15_fmns_write_ok_iff.
+
+(* the headline, for the solvers of C12 / C13: every fast solver that Network.FastNetworkSolver builds, from any
+   network (recurrent links, any size), with registered activation types and finite weights and biases *)
+Theorem C15_fmns_roundtrip :
+  forall (F : Type) (NF : num F) (finite : F -> bool), finite (fzero NF) = true ->
+  forall (n : net F) (fn : fnet F) (id : Z) (name : string),
+    fast_of_net NF n = Ok fn ->
+    Forall (fun c => exists nm, C15_name_of c = Ok nm) (f_acts fn) ->
+    forallb finite (f_biases fn) = true -> forallb finite (map (@fl_w F) (f_conns fn)) = true ->
+    exists d, fmns_write finite C15_name_of (solver_of id name (fzero NF) fn) = Ok d /\
+      exists s', fmns_read C15_type_of d = Ok s' /\ s' = solver_of id name (fzero NF) fn /\ fnet_of s' = fn /\
+                 s_id s' = id /\ s_name s' = name /\ s_modules s' = [] /\ solver_fits s' = true.
+Proof.
+  intros F NF finite Hz n fn id name.
+  exact (fmns_roundtrip F finite C15_name_of C15_type_of NF type_of_name_of Hz n fn id name).
+Qed.
+Print Assumptions C15_fmns_roundtrip.
+
+(* ... and the same for every well-formed solver description (the test of the model's constructor new_fast) *)
+Theorem C15_fmns_roundtrip_wf :
+  forall (F : Type) (NF : num F) (finite : F -> bool), finite (fzero NF) = true ->
+  forall (fn : fnet F) (id : Z) (name : string),
+    ((f_bias fn + f_in fn + f_out fn <=? f_total fn) && (List.length (f_acts fn) =? f_total fn)
+     && (List.length (f_biases fn) =? f_total fn)
+     && forallb (fun c => (fl_src c <? f_total fn) && (fl_tgt c <? f_total fn)) (f_conns fn))%nat = true ->
+    Forall (fun c => exists nm, C15_name_of c = Ok nm) (f_acts fn) ->
+    forallb finite (f_biases fn) = true -> forallb finite (map (@fl_w F) (f_conns fn)) = true ->
+    exists d, fmns_write finite C15_name_of (solver_of id name (fzero NF) fn) = Ok d /\
+      exists s', fmns_read C15_type_of d = Ok s' /\ s' = solver_of id name (fzero NF) fn /\ fnet_of s' = fn /\
+                 s_id s' = id /\ s_name s' = name /\ s_modules s' = [] /\ solver_fits s' = true.
+Proof.
+  intros F NF finite Hz fn id name.
+  exact (fmns_roundtrip_fnet F finite C15_name_of C15_type_of NF type_of_name_of Hz fn id name).
+Qed.
+Print Assumptions C15_fmns_roundtrip_wf.
+
+(* "restores a solver that computes identical outputs": for EVERY sequence of operations
+   (LoadSensors x | ForwardSteps k | RecursiveSteps | Relax k delta | Flush), the restored solver, fresh from
+   ReadFMNSModel, returns at every operation the same result and the same ReadOutputs() as the original solver
+   (a) run from its own initial state, and (b) flushed after any history of its own.  Exact equality of the
+   model's computation, in every number structure (binary64 included) and for every activation table. *)
+Theorem C15_fmns_outputs_equal :
+  forall (F : Type) (NF : num F) (finite : F -> bool) (act : Z -> F -> res F), finite (fzero NF) = true ->
+  forall (n : net F) (fn : fnet F) (id : Z) (name : string),
+    fast_of_net NF n = Ok fn ->
+    Forall (fun c => exists nm, C15_name_of c = Ok nm) (f_acts fn) ->
+    forallb finite (f_biases fn) = true -> forallb finite (map (@fl_w F) (f_conns fn)) = true ->
+    exists d s', fmns_write finite C15_name_of (solver_of id name (fzero NF) fn) = Ok d /\
+      fmns_read C15_type_of d = Ok s' /\
+      (forall ops : list (op F),
+         fast_trace NF act (fnet_of s') (fast_init NF (fnet_of s')) ops = fast_trace NF act fn (fast_init NF fn) ops) /\
+      (forall h ops : list (op F),
+         fast_trace NF act (fnet_of s') (fast_init NF (fnet_of s')) ops =
+         fast_trace NF act fn (fst (fast_flush NF fn (fast_run NF act fn (fast_init NF fn) h))) ops).
+Proof.
+  intros F NF finite act Hz n fn id name.
+  exact (fmns_outputs_equal F finite C15_name_of C15_type_of NF type_of_name_of Hz act n fn id name).
+Qed.
+Print Assumptions C15_fmns_outputs_equal.
+
+(* the binary64 instance the correspondence runs *)
+Theorem C15_fmns_outputs_equal_float :
+  forall (t : table) (n : net float) (fn : fnet float) (id : Z) (name : string),
+    fast_of_net F64num n = Ok fn ->
+    Forall (fun c => exists nm, C15_name_of c = Ok nm) (f_acts fn) ->
+    forallb f_finite (f_biases fn) = true -> forallb f_finite (map (@fl_w float) (f_conns fn)) = true ->
+    exists d s', fm_write (solver_of id name 0%float fn) = Ok d /\ fm_read d = Ok s' /\
+      forall ops : list (op float),
+        fast_trace F64num (fact t) (fnet_of s') (fast_init F64num (fnet_of s')) ops =
+        fast_trace F64num (fact t) fn (fast_init F64num fn) ops.
+Proof.
+  intros t n fn id name H Ha Hb Hw.
+  destruct (fmns_outputs_equal float f_finite C15_name_of C15_type_of F64num type_of_name_of eq_refl (fact t) n fn id name H Ha Hb Hw)
+    as (d & s' & Hd & Hr & Ho & _).
+  exists d, s'. exact (conj Hd (conj Hr Ho)).
+Qed.
+Print Assumptions C15_fmns_outputs_equal_float.
+
+(* the other direction: whatever ReadFMNSModel accepts, WriteModel of the result gives the document back, up to
+   the two things the reader ignores (the stored sensor count is re-derived, an empty module list is omitted):
+   the reader loses nothing *)
+Theorem C15_fmns_write_read :
+  forall (F : Type) (finite : F -> bool) (d : doc F) (s : fsolver F),
+    fmns_read C15_type_of d = Ok s -> forallb finite (doc_floats F d) = true ->
+    fmns_write finite C15_name_of s = Ok (doc_norm F d).
+Proof.
+  intros F finite d s. exact (fmns_write_read_ok F finite C15_name_of C15_type_of name_of_type_of d s).
+Qed.
+Print Assumptions C15_fmns_write_read.
+
+(* and what it returns is the document's content, in the document's order *)
+Theorem C15_fmns_read_fields :
+  forall (F : Type) (d : doc F) (s : fsolver F), fmns_read C15_type_of d = Ok s ->
+    s_id s = d_id d /\ s_name s = d_name d /\ s_bias s = d_bias d /\ s_in s = d_in d /\ s_out s = d_out d /\
+    s_total s = d_total d /\ types_of C15_type_of (d_acts d) = Ok (s_acts s) /\ s_biases s = d_biases d /\
+    d_conns d = map Some (s_conns s) /\
+    read_modules C15_type_of (match d_modules d with Some l => l | None => [] end) = Ok (s_modules s) /\
+    solver_built s = true.
+Proof. intros F d s. exact (fmns_read_ok_inv F C15_type_of d s). Qed.
+Print Assumptions C15_fmns_read_fields.
+
+(* error paths of the reader.  An activation name the registry does not know, anywhere in the document: an error
+   (never a solver), whatever else the document says *)
+Lemma C15_type_of_total : forall m : string,
+  (exists c, C15_type_of m = Ok c) \/ (exists e, C15_type_of m = GoErr e).
+Proof.
+  intros m. unfold C15_type_of, activation_type_from_name.
+  destruct (map_get String.eqb (fa_inverse node_activators) m); [left|right]; eauto.
+Qed.
+
+Theorem C15_fmns_read_unknown_name :
+  forall (F : Type) (d : doc F) (n : string),
+    In n (doc_names F d) -> (forall c, C15_type_of n <> Ok c) ->
+    fmns_read C15_type_of d = GoErr ErrFmnsActName.
+Proof.
+  intros F d n Hin Hn. destruct (C15_type_of_total n) as [[c Hc]|[e He]]; [exact (False_ind _ (Hn c Hc))|].
+  exact (fmns_read_unknown_name F C15_type_of d n e (fun m _ => C15_type_of_total m) Hin He).
+Qed.
+Print Assumptions C15_fmns_read_unknown_name.
+
+(* counts inconsistent with the arrays, as far as the real constructor notices: these panic (the model says which
+   panic); anything else is accepted as described (C15_fmns_read_fields) *)
+Theorem C15_fmns_read_panics :
+  forall (F : Type) (d : doc F) (acts : list Z) (ms : list smodule),
+    types_of C15_type_of (d_acts d) = Ok acts ->
+    read_modules C15_type_of (match d_modules d with Some l => l | None => [] end) = Ok ms ->
+    (d_total d < 0 -> fmns_read C15_type_of d = GoPanic PanicMakeslice) /\
+    (0 <= d_total d < d_bias d -> fmns_read C15_type_of d = GoPanic PanicIndex) /\
+    (0 <= d_total d -> d_bias d <= d_total d -> forall pre c post,
+       d_conns d = map Some pre ++ Some c :: post ->
+       forallb (fun c => idx_ok (d_total d) (sl_src c) && idx_ok (d_total d) (sl_tgt c)) pre = true ->
+       idx_ok (d_total d) (sl_src c) && idx_ok (d_total d) (sl_tgt c) = false ->
+       fmns_read C15_type_of d = GoPanic PanicIndex) /\
+    (0 <= d_total d -> d_bias d <= d_total d -> forall pre post,
+       d_conns d = map Some pre ++ None :: post ->
+       forallb (fun c => idx_ok (d_total d) (sl_src c) && idx_ok (d_total d) (sl_tgt c)) pre = true ->
+       fmns_read C15_type_of d = GoPanic PanicNil).
+Proof. intros F d acts ms. exact (fmns_read_panics F C15_type_of d acts ms). Qed.
+Print Assumptions C15_fmns_read_panics.
+
+(* non-vacuity: the recurrent network of C13's example (self-loop, 2-cycle, bias node) as a fast solver, its model
+   file, the restored solver and its outputs; an unknown name and a non-finite weight are refused *)
+Definition ex_fm_net : net float :=
+  mkNet [mkNode Input 17 []; mkNode Bias 17 [];
+         mkNode Hidden 14 [mkLink 0%nat 0.5%float false; mkLink 2%nat 0.25%float false; mkLink 3%nat (-0.5)%float false];
+         mkNode Output 16 [mkLink 2%nat 1%float false; mkLink 1%nat 0.125%float false]]
+        [0%nat; 1%nat] [3%nat].
+Definition ex_fm_doc : doc float :=
+  mkDoc 7 "XOR"%string 1 2 1 1 4 ["NullActivation"; "NullActivation"; "LinearClippedActivation"; "LinearActivation"]%string
+        [0; 0; 0x1p-3; 0]%float
+        [Some (mkSlink 1 3 0x1p-1 0); Some (mkSlink 3 3 0x1p-2 0); Some (mkSlink 2 3 (-0x1p-1) 0); Some (mkSlink 3 2 1 0)]%float
+        None.
+
+Example C15_example_fmns :
+  match fast_of_net F64num ex_fm_net with
+  | Ok fn =>
+    match fm_write (solver_of 7 "XOR"%string 0%float fn) with
+    | Ok d =>
+      doc_eqb d ex_fm_doc &&
+      match fm_read d with
+      | Ok s' => solver_eqb s' (solver_of 7 "XOR"%string 0%float fn) && solver_fits s'
+                 && list_eqb (list_eqb feqb_exact)
+                      (map snd (fast_trace F64num (fact []) (fnet_of s') (fast_init F64num (fnet_of s')) [OLoad [2%float]; OForward 3; ORecursive]))
+                      [[0]; [1]; [0x1.a6p-1]]%float
+      | _ => false
+      end
+    | _ => false
+    end
+  | _ => false
+  end = true
+  /\ fm_read (mkDoc 7 "XOR"%string 1 2 1 1 4 ["NullActivation"; "nullactivation"]%string [] [] None) = GoErr ErrFmnsActName
+  /\ fm_read (mkDoc 7 "XOR"%string 1 2 1 1 (-1) [] [] [] None) = GoPanic PanicMakeslice
+  /\ fm_read (mkDoc 7 "XOR"%string 1 2 1 1 4 [] [] [Some (mkSlink 1 4 0 0)]%float None) = GoPanic PanicIndex
+  /\ fm_write (mkFsolver 7 "XOR"%string 1 1 1 4 [17; 17; 16; 14] [0; 0; infinity; 0]%float [] []) = GoErr ErrFmnsFloat
+  /\ fm_write (mkFsolver 7 "XOR"%string 1 1 1 4 [17; 17; 0; 14] [0; 0; infinity; 0]%float [] []) = GoErr ErrFmnsActType.
+Proof. vm_compute. repeat split; reflexivity. Qed.
